@@ -12,13 +12,15 @@ import registry  # noqa: E402
 BASELINE = ("cd /repo && cargo nextest run --workspace --no-fail-fast --tool-config-file pb:/w/lib/nextest.toml --profile pb "
             "--test-threads 8 --offline || cargo test --workspace --no-fail-fast --offline")
 
+COLL = """ Collection lattices (iterator-adapter bodies, outside Verus): SetUnion and MapUnion merge / partial_cmp / eq / is_bot / lattice_from are checked by Kani against set-union / key-wise-merge-with-invisible-bottoms oracles written on arrays, for operands of <= 2 elements in every cheap representation (ArraySet/OptionSet/SingletonSet/ArrayMap/OptionMap/SingletonMap, harness TinySet/TinyMap as Extend receivers), including cross-representation comparisons; VecUnion (length <= 2) against the index-wise-merge-with-extension model; UnionFind (items {0,1,2}, reachable states) against an equivalence-closure matrix (thorough tier). These are bounded by operand size, not proved."""
+
 CLAIMS = {
     "C01": {
         "text": "Every Merge::merge body of Max, Min, WithBot, WithTop, Pair (rustc's expansion of derive(Lattice)), DomPair, (), Point is "
                 "verified by Verus, generically in all type parameters, against `abs' == abs.join(other.abs)` where join is an abstract "
                 "semilattice whose ACI laws are proved per carrier; ACI of merge is then a lemma over the contracts. 'Every nesting' is the "
                 "genericity of the impl proofs. Kani decides, complete per monomorphic instantiation, the executable ACI equations on the "
-                "real crate for the same types plus Conflict::merge (let-chain, outside Verus) and serves as counterexample generator.",
+                "real crate for the same types plus Conflict::merge (let-chain, outside Verus) and serves as counterexample generator." + COLL,
         "note": "Trusted: Verus+Z3, Kani+CBMC, rustc macro expander, hvx tokenizer (token-equality self-check each run); "
                 "T: Ord assumed a total order consistent with PartialOrd/Eq (witnessed for the 12 integer types); std collections "
                 "(HashSet/BTreeSet/HashMap/BTreeMap/Vec as implementations) not verified; Kani results are for u8/char/() payloads. "
@@ -31,17 +33,20 @@ CLAIMS["C02"] = dict(CLAIMS["C01"], text="The merge contract's clause `changed =
                      "C01 (same obligations), and `changed == !(other <= old)` follows by lemma_changed_iff_not_leq over the contracts. Kani asserts "
                      "`changed == (after != before) == !(other <= before)` with the crate's own PartialEq/PartialOrd, complete per instantiation.",
                      design="DESIGN.md §4, §5 C01/C02")
+CLAIMS["C02"]["text"] += COLL
 CLAIMS["C03"] = dict(CLAIMS["C01"], text="eq / partial_cmp / is_bot / is_top / default bodies are verified in two steps: (1) Verus proves each body equal to a "
                      "structural spec (*_spec), (2) a lemma per type proves that spec equal to the order induced by the abstract join (cmp_v), to "
                      "bot()/top() of the carrier, for every nesting (hypotheses cmp_ok/eq_ok on the components). lemma_order proves the induced "
                      "comparison is a partial order with duality. Kani asserts `(a<=b) == !b.merge(a)`, the partial-order laws, is_bot/is_top "
                      "against least/greatest witnesses and default-is-bottom on the real crate, complete per instantiation.",
                      design="DESIGN.md §4, §5 C03")
+CLAIMS["C03"]["text"] += COLL
 CLAIMS["C04"] = dict(CLAIMS["C01"], text="The abstract joins in the Verus templates are the documented models (max, min, adjoined bottom with bottom entries "
                      "normalised away, adjoined top, component-wise product, lexicographic dominating pair, conflict-on-inequality, one-point); the "
                      "merge and lattice_from contracts are the refinement statements and are discharged generically (heterogeneous Merge<Other> "
                      "impls are the generic impl blocks themselves). Representation independence is built in: the model is stated on abs().",
                      design="DESIGN.md §4, §5 C04")
+CLAIMS["C04"]["text"] += COLL
 
 CLAIMS["C09"] = {
     "text": "Each law checker of lattices::algebra is run by Kani on the carrier {0..N-1} with the operations given by fully symbolic "
@@ -119,6 +124,19 @@ CLAIMS["C14"] = {
             "covered (outside CBMC's practical reach, see DESIGN §3.3); the step-to-trace induction is argued, not machine-checked.",
     "technique": "contract-based verification: Kani per-method contracts on the real adaptors with symbolic own state and protocol-asserting havoc sinks",
     "design": "DESIGN.md §5 C14",
+}
+
+CLAIMS["C13"] = {
+    "text": "Partial, bounded: SymmetricHashJoin::pull (the join's orchestration) is run by Kani on the real code against the HalfJoinState "
+            "contract in executable form (array-backed reference states, set and multiset flavour) and havoc fused upstreams over a 2x2 "
+            "key/value domain: along every history of <= 3 pulls from the initial state, every emitted pair is a real match of arrived entries, "
+            "emitted + queued always equals the cardinality of the join of everything that arrived, and whenever the join stalls (Pending/Ended) "
+            "nothing is left queued and exactly the join was emitted; it ends only when both sides ended.",
+    "note": "NOT covered (and the core of the property's anchors): HalfSetJoinState / HalfMultisetJoinState themselves (FxHashMap + SmallVec + "
+            "VecDeque) and NewTickJoinIter (tied to std hash_map::Iter): hashbrown is outside CBMC's reach. A change in build/probe/pop_match or in "
+            "the new-tick iterator is not detected; a change in the orchestration is. Code generators in dfir_lang/ops/join*.rs are not covered.",
+    "technique": "contract-based verification: Kani bounded histories of the real pull against a reference implementation of the callee contract",
+    "design": "DESIGN.md §5 C13",
 }
 
 NOT_APPLICABLE = {
